@@ -10,6 +10,8 @@ import (
 
 	cbackoff "github.com/cenkalti/backoff/v4"
 
+	ubackoff "github.com/aperturerobotics/util/backoff"
+
 	"github.com/aperturerobotics/util/routine"
 	"github.com/aperturerobotics/util/verifhook"
 
@@ -125,8 +127,17 @@ func newRtWorld(c *mon.Case, state, withCmp, retry bool, behave rtBehaviour) *rt
 	w := &rtWorld{c: c, withCmp: withCmp, retry: retry, behave: behave}
 	var opts []routine.Option
 	if retry {
-		w.bo = &recBackoff{c: c}
-		opts = append(opts, routine.WithBackoff(w.bo))
+		// three documented ways to configure retry; the recording backoff is only available with WithBackoff
+		switch retryConfigKind(c) {
+		case 1:
+			opts = append(opts, routine.WithRetry(&ubackoff.Backoff{BackoffKind: ubackoff.BackoffKind_BackoffKind_CONSTANT, Constant: &ubackoff.Constant{Interval: 1}}))
+		case 2:
+			// kind left unset: documented to mean exponential with the given parameters
+			opts = append(opts, routine.WithRetry(&ubackoff.Backoff{Exponential: &ubackoff.Exponential{InitialInterval: 1, MaxInterval: 1, Multiplier: 1}}))
+		default:
+			w.bo = &recBackoff{c: c}
+			opts = append(opts, routine.WithBackoff(w.bo))
+		}
 	}
 	opts = append(opts, routine.WithExitCb(func(err error) {
 		w.exitCbMu.Lock()
@@ -149,6 +160,17 @@ func newRtWorld(c *mon.Case, state, withCmp, retry bool, behave rtBehaviour) *rt
 		w.rc = routine.NewRoutineContainer(opts...)
 	}
 	return w
+}
+
+// retryConfigKind picks how retry is configured for a case (0 WithBackoff, 1 WithRetry constant, 2 WithRetry with the kind unset).
+func retryConfigKind(c *mon.Case) int {
+	if c.Index%4 == 1 {
+		return 1
+	}
+	if c.Index%4 == 3 {
+		return 2
+	}
+	return 0
 }
 
 func (w *rtWorld) kind() string {
